@@ -4,7 +4,7 @@
 (* executes it, so every reachable state is a complete message together     *)
 (* with its execution state; each state is emitted, once per ending, with   *)
 (* the expected observable outcome for replay on the real dispatcher.       *)
-EXTENDS ScpiExec, TLC, Json
+EXTENDS ScpiExec, ScpiLex, TLC, Json
 
 CONSTANTS FirstUnits,   \* unit records allowed in first position
           NextUnits,    \* unit records allowed in later positions
@@ -55,6 +55,12 @@ OwnData == \A c \in 1..Len(es.calls) :
              LET u == units[es.calls[c].unit] IN
              /\ Len(es.calls[c].got) <= Len(u.data)
              /\ \A k \in 1..Len(es.calls[c].got) : es.calls[c].got[k] = Tok(u.data[k])
+(* C04 x C05/C06/C10: the rendered message is what ScpiLex says it is -- well-formed when every unit is,
+   otherwise malformed in one of the ways the property lists (never merely "unspecified"), so that the
+   hand-written fault templates cannot demand more than the lexical specification does *)
+LexAgrees == units # <<>> => \A e \in Endings :
+                LET d == Decompose(RenderMsg(units, e)) IN
+                IF \A k \in 1..Len(units) : units[k].lex = "ok" THEN d.v = "W" ELSE d.v = "M"
 (* C10 / C11: framing of a successful response; the buffer never exceeds its capacity *)
 Count(s, b) == Cardinality({k \in 1..Len(s) : s[k] = b})
 Framing == LET f == Finish(es) IN
